@@ -5,13 +5,17 @@ import (
 	"errors"
 	"fmt"
 
-	"github.com/nspcc-dev/neo-go/pkg/config/limits"
 	"github.com/nspcc-dev/neo-go/pkg/io"
 	"github.com/nspcc-dev/neo-go/pkg/util"
+	"github.com/nspcc-dev/neo-go/pkg/vm/stackitem"
 )
 
-// MaxValueLength is the max length of a leaf node value.
-const MaxValueLength = 3 + limits.MaxStorageValueLen + 1
+// MaxValueLength is the max length of a leaf node value. Items stored by
+// contracts are limited by limits.MaxStorageValueLen, but native contracts store
+// serialized stack items (contract state with its NEF is the biggest of them),
+// which can be as long as stackitem.MaxSize. Every value accepted by PutBatch
+// (that has no check of its own) must be readable back.
+const MaxValueLength = 3 + stackitem.MaxSize + 1
 
 // LeafNode represents an MPT's leaf node.
 type LeafNode struct {
